@@ -117,6 +117,20 @@ type Run struct {
 	known      []knownEntry
 	inconcl    []string
 	replayOnly string
+	onExit     []func()
+}
+
+// OnExit registers a clean-up that Finish runs before the process exits (deferred calls in main do not run on os.Exit).
+func (r *Run) OnExit(f func()) { r.onExit = append(r.onExit, f) }
+
+func (r *Run) exit(code int) {
+	for i := len(r.onExit) - 1; i >= 0; i-- {
+		func() {
+			defer func() { recover() }()
+			r.onExit[i]()
+		}()
+	}
+	os.Exit(code)
 }
 
 // Start parses the command line: <tier> | --replay <file>; env VERIF_SEED, VERIF_TIER.
@@ -361,16 +375,16 @@ func (r *Run) Finish() {
 			fmt.Printf("  what: %s\n  signature: %v\n", v.What, v.Sig)
 		}
 		fmt.Printf("%s: %d violating observations in total; by kind: %v\n", r.ID, r.violCount, r.violKinds)
-		os.Exit(1)
+		r.exit(1)
 	}
 	if len(r.inconcl) > 0 {
 		for _, s := range r.inconcl {
 			fmt.Printf("INCONCLUSIVE property=%s reason=%s\n", r.ID, s)
 		}
-		os.Exit(2)
+		r.exit(2)
 	}
 	fmt.Printf("%s: held on everything observed\n", r.ID)
-	os.Exit(0)
+	r.exit(0)
 }
 
 // ---------------------------------------------------------------- worker pool
